@@ -64,6 +64,13 @@ def boundary_templates(rng):
         out.append('<loop set="list" value="a">' + '<if case="1">' * d + '<loop set="list" value="b">.</loop>' + "</if>" * d + "{var:a}</loop>")
         out.append('<loop set="list" value="a">' + '<if case="1">' * d + '<loop set="obj" value="b"><loop set="list" value="c">{var:c}</loop>{var:b}</loop>' + "</if>" * d + "{var:a};</loop>")
         out.append('<loop set="list" value="a">{svar:a, ' + '{var:a}' + '}' + '<if case="1">' * d + '{if case="1" true="<loop>" false="{var:a}"}<loop set="list" value="b">{var:b}{var:a}</loop>' + "</if>" * d + "</loop>")
+    # findings/D91: Level is 8 bits wide.  An inner loop under 254..257 open <if> inside an enclosing loop: up to 255 open
+    # tags it is a loop with Level = its depth; deeper it is left as text (its </loop> then closes nothing).  Before the fix
+    # the inner loop at depth 256 shared slot 0 with the enclosing loop (wrong item, use after free with sort=).
+    for d in (253, 254, 255, 256, 257):
+        out.append('<loop set="list" value="a">' + '<if case="1">' * d + '<loop set="obj" value="b">{var:b}</loop>' + "</if>" * d + "{var:a};</loop>")
+        out.append('<loop set="list" value="a">' + '<if case="1">' * d + '<loop set="list" value="b" sort="descend">{var:b}</loop>' + "</if>" * d + "{var:a};</loop>")
+        out.append('<if case="1">' * (d + 1) + '<loop set="list" value="b" sort="ascend">{var:b}<loop value="c">{var:c}</loop></loop>' + "</if>" * (d + 1))
     # sub tags of an inline if that cross the closing quote of their value, quotes inside tag names
     out += ['{if case="1" true="{var:a"}}', '{if case="1" true="{var:a"} false="b"}', '{if case="0" true="t" false="{raw:a"}}', '{if case="1" true="x{math:1+1"}y"}',
             '{if case="1" true="{var:a" false="{var:b"}}', "{if case='1' true='{var:a'}}", '{if case="1" false="{var:a}" true="{var:b"}"}', '{if case="1" true="{svar:a, {var:b"}}"}',
